@@ -1,12 +1,62 @@
 /-
 Props/C01.lean — property theorems for C01 (Get/GetTo return exactly the element the path denotes).
+
+`get_correct` is the property at full strength for the *repaired* emitter model (`GenCfg.fixed`): for every
+well-formed type tree, every well-typed value and every path, what GetTo answers is accepted by the
+independent specification (`getAccepts (nav n v p)`). The current tree differs from the repaired model
+exactly on the listed known-finding classes (`container-fallthrough`, `negative-index`, `nil-root-panics`);
+`repo_not_correct` exhibits a concrete input on which the model of the current tree is rejected.
 -/
-import InspectorModel.Gen.Get
-import InspectorModel.Spec.Nav
+import InspectorModel.Proofs.C01
 namespace Inspector.C01
 
 /-- Empty path: GetTo hands out the root itself (compiler.go:383). -/
 theorem empty_path (cfg : GenCfg) (n : Node) (v : Val) :
     getM cfg n .ptr v [] = (Res.mk n v).out := rfl
+
+/-- C01 for the repaired emitter, every way a non-nil root reaches the inspector (`T`, `*T`, `**T`). -/
+theorem get_correct (n : Node) (v : Val) (p : List Seg) (f : Form)
+    (hf : rootOf f = .ok) (hwf : NodeWF n = true) (hwt : WT n v = true) :
+    getAccepts (nav n v p) (getM GenCfg.fixed n f v p) = true := by
+  have hr : rootOfC GenCfg.fixed f = .ok := by
+    unfold rootOfC
+    rw [hf]
+  unfold getM
+  rw [hr]
+  cases p with
+  | nil => simp [nav, navV, getAccepts, GetOut.beq_refl]
+  | cons s rest =>
+    simp only []
+    exact getN_correct (s :: rest) n v false true hwf hwt (fun h => by cases h)
+
+/-- A typed-nil root is refused like a foreign argument by the repaired emitter: nothing, no panic. -/
+theorem get_nil_root (n : Node) (v : Val) (p : List Seg) (f : Form) (hf : rootOf f ≠ .ok) :
+    getM GenCfg.fixed n f v p = .none := by
+  cases f <;> simp [rootOf] at hf <;> rfl
+
+/-- The answer does not depend on the argument form. -/
+theorem get_forms_agree (cfg : GenCfg) (n : Node) (v : Val) (p : List Seg) :
+    getM cfg n .val v p = getM cfg n .ptr v p ∧ getM cfg n .ptrptr v p = getM cfg n .ptr v p := ⟨rfl, rfl⟩
+
+section NonVacuity
+/-- `struct { M map[string]int; L []int }` with `M = {"a": 7}`, `L = [3]`. -/
+def exNode : Node :=
+  .struct { typn := "T" } [
+    .map { typn := "map[string]int", name := "M" } (.basic { typn := "string", typu := "string" }) (.basic { typn := "int", typu := "int" }),
+    .slice { typn := "[]int", name := "L" } (.basic { typn := "int", typu := "int" })]
+def exVal : Val := .struct [.map false [.str (strBytes "a")] [.int 7], .slice false [.int 3] 1]
+def seg (t : String) (pi : Option Int := none) : Seg := { text := strBytes t, pi := pi }
+
+/-- The hypotheses of `get_correct` are met by a concrete non-trivial input … -/
+example : NodeWF exNode = true ∧ WT exNode exVal = true := by decide
+/-- … on which the repaired model finds the element. -/
+example : (getM GenCfg.fixed exNode .ptr exVal [seg "M", seg "a"] == .some "int" (.int 7)) = true := by decide
+/-- The model of the current tree is *not* accepted everywhere: with the path `L.-1` it panics
+(known finding `negative-index`), with `L.5` it hands out the enclosing slice (`container-fallthrough`). -/
+theorem repo_not_correct :
+    getAccepts (nav exNode exVal [seg "L", seg "-1" (some (-1))]) (getM GenCfg.repo exNode .ptr exVal [seg "L", seg "-1" (some (-1))]) = false ∧
+    getAccepts (nav exNode exVal [seg "L", seg "5" (some 5)]) (getM GenCfg.repo exNode .ptr exVal [seg "L", seg "5" (some 5)]) = false := by
+  decide
+end NonVacuity
 
 end Inspector.C01
